@@ -6,7 +6,22 @@ CHECKS['C18'] = dict(
          'Complete for the stated structural clauses; float parsing itself is std/serde.',
     note=ASSUME + '; serde try_from attribute semantics are checked on the expansion, str::parse/serde_json number parsing trusted',
     technique='who-may-construct query + delegation-chain check by abstract interpretation of MIR')
-for _p in ['C01','C02','C03','C04','C05','C06','C07','C08','C09','C10','C11','C12','C13','C14','C15','C16','C19']:
+CHECKS['C07'] = dict(
+    text='Inventory + discharge: every panic-capable call / Assert terminator / loop in the MIR bodies reachable from prayer_times_dt '
+         'is enumerated and discharged by abstract interpretation over all skeleton worlds (15 policies x 16 validity patterns x free '
+         'conditions; RefCell borrow state and Ok/Err typestate tracked exactly), by the key tables of Params::new, by an upper-bound '
+         'argument for the NaiveTime operands, by loop classification or a reviewed entry; an undischarged site is a violation. '
+         'Panics/hangs that need numeric reasoning (inf/NaN) are not decided.',
+    note=ASSUME + '; inputs finite; Params keeps the keys Params::new inserts; chrono date arithmetic in range for 1600..2399',
+    technique='panic-site inventory over the call graph + path-sensitive abstract interpretation (typestate) of MIR')
+CHECKS['C08'] = dict(
+    text='Exhaustive decision on the skeleton abstraction of the policy layer: for every policy x feasible initial validity pattern x '
+         'outcome of every data-dependent branch, scope (Fajr/Isha-only policies leave the other four cells untouched), invalid-gate '
+         'identity (measured against the same world under policy None) and flag/replacement agreement are checked on the final cells. '
+         'Numeric values are abstracted to provenance terms (numeric agreement is C10).',
+    note=ASSUME + '; Dhuhr always valid and Shurooq/Maghrib valid together (checked by C01/C06 rules)',
+    technique='path-sensitive abstract interpretation of MIR over a finite predicate abstraction (skeleton worlds)')
+for _p in ['C01','C02','C03','C04','C05','C06','C09','C10','C11','C12','C13','C14','C15','C16','C19']:
     NA[_p] = 'check not yet registered in this commit (design in DESIGN.md §4; being built)'
 NA['C17'] = 'calendar equality over 3.65 M dates is arithmetic over runtime values (float floor, data-dependent search loops): no clause is visible in the shape of the code'
 NA['C20'] = 'metamorphic relation between numeric outputs through the whole ephemeris; the only structural fact behind it is not a necessary condition'
